@@ -6,7 +6,7 @@ Mutation events
   ('sub', rep, body)          build a block from the body and add it
   ('rel', rt, i)              add Rx90(2) with relation rt to entry i of the current circuit
   ('subreg', body)            add a block whose count comes from the session's RepetitionRegistry; ('setrep', n) sets it
-  ('grow', i)                 add Reset(0) into the block that is entry i (through the block's own add)
+  ('grow', i[, q])            add Reset(q or 0) into the block that is entry i (through the block's own add)
   ('apply',) ('flatten',)     c = c.apply_modifiers() / c = c.flatten()
   ('nest',)                   new circuit; add the current one into it
   ('setreg', v)               DurationRegistry.set_registry_at(key, v)
@@ -61,7 +61,7 @@ class Session:
             self.ent.append(c.add(co.Rx90(2, relation=RelationLink(self.ent[ev[2]], RT[ev[1]]))))
         elif k == 'grow':
             # add an operation into an already nested block through the block's own public add
-            self.ent[ev[1]].add(make_op('R', 0, None, c))
+            self.ent[ev[1]].add(make_op('R', ev[2] if len(ev) > 2 else 0, None, c))
         elif k == 'apply':
             self.c = c.apply_modifiers()
         elif k == 'flatten':
@@ -116,6 +116,7 @@ class Session:
     def vector(self):
         """Full observation vector of the current circuit under the current settings."""
         c = self.c
+        first_duration = round(c.duration, 9)     # asked before anything is listed
         ops = c.operations
         comps = c.composite_operations
         pos = {id(o): i for i, o in enumerate(ops)}
@@ -132,6 +133,7 @@ class Session:
         return {
             'ops': tuple(rows),
             'duration': round(c.duration, 9),
+            'duration-asked-first': first_duration,
             'acq': (tuple(acq), per_q),
             'stim': str(to_stim(c)),
         }
@@ -166,6 +168,8 @@ def diff_vectors(a, b):
                     break
     if a['duration'] != b['duration']:
         out.append(('duration', '%r vs %r' % (a['duration'], b['duration'])))
+    if a.get('duration-asked-first') != b.get('duration-asked-first'):
+        out.append(('duration-asked-first', '%r vs %r' % (a.get('duration-asked-first'), b.get('duration-asked-first'))))
     if a['acq'] != b['acq']:
         out.append(('acq-index', '%r vs %r' % (a['acq'], b['acq'])))
     if a['stim'] != b['stim']:
